@@ -19,7 +19,7 @@ use vh::vclock;
 fn main() {
     let args = Args::parse();
     let mut sh = Shard::new("C06", &args);
-    std::panic::set_hook(Box::new(|_| {}));
+    vh::shard::quiet_panics();
     // The space is small: enumerate it completely on every shard-0 run; other shards vary the
     // payloads/timeouts with the seed.
     let mut case = 0u64;
@@ -35,7 +35,7 @@ fn main() {
                     let mut rng = args.rng().fork(case);
                     let len = rng.usize_below(40);
                     let payload = rng.bytes(len);
-                    run(&mut sh, case, retries, n_tx, lost_mask, late_poll, timeout_us, &payload);
+                    sh.guard_case(case, |sh| run(sh, case, retries, n_tx, lost_mask, late_poll, timeout_us, &payload));
                 }
             }
         }
